@@ -108,6 +108,11 @@ func (re *remainderExprNode) Run(ctx context.Context, currField string, tagExpr 
 		return math.NaN()
 	}
 	v0, _ := toFloat64(re.leftOperand.Run(ctx, currField, tagExpr), true)
+	// int64(NaN) and int64(±Inf) are implementation-specific (MinInt64 on amd64, 0 on arm64):
+	// an undefined operand, e.g. the result of x/0, gives an undefined remainder
+	if math.IsNaN(v0) || math.IsInf(v0, 0) || math.IsNaN(v1) || math.IsInf(v1, 0) {
+		return math.NaN()
+	}
 	return float64(int64(v0) % int64(v1))
 }
 
